@@ -724,7 +724,8 @@ func (s *Store) ExportedServicesForPeer(ws memdb.WatchSet, peerID string, dc str
 		return 0, nil, fmt.Errorf("failed to read peering: %w", err)
 	}
 	if peering == nil {
-		return 0, &structs.ExportedServiceList{}, nil
+		// Return the tables index so caller can watch it for changes if the peering doesn't exist
+		return maxIndexWatchTxn(tx, ws, tablePeering), &structs.ExportedServiceList{}, nil
 	}
 
 	return exportedServicesForPeerTxn(ws, tx, peering, dc)
